@@ -222,7 +222,8 @@ impl ReferenceProcessor<u32, (u32, usize), (u32, usize)> for NextReferenceIdProc
             return Some((START_REFERENCE_ID, missing_refs_result));
         }
 
-        Some((ref_id_result + 1, missing_refs_result))
+        /* If the reference ID range is exhausted, fail rather than wrap around. */
+        Some((ref_id_result.checked_add(1)?, missing_refs_result))
     }
 }
 
